@@ -339,7 +339,7 @@ type protoConfig struct {
 
 func (c protoConfig) key() string { return c.flags + "/" + c.pattern }
 
-var protoPatterns = []string{"a", "a*", "(a)|b", "é", "😀", "^", "$", "(?:)"}
+var protoPatterns = []string{"a", "a*", "(a)|b", "é", "😀", "^", "$", "(?:)", "."}
 
 func protoSubjects(thorough bool) [][]uint16 {
 	ss := []string{"", "a", "aa", "ba", "ab", "é", "éa", "aé", "😀a", "a😀"}
